@@ -81,16 +81,83 @@ Proof.
 Qed.
 End Proofs.
 
+(* ---------- per-product isolation ---------- *)
+Section Isolation.
+Context {C : Type}.
+Variable holds : C -> request -> bool.
+Lemma find_product_app {A} p (pre : list (bytes * A)) e post :
+  find_product p pre = None -> fst e = p -> find_product p (pre ++ e :: post) = Some (snd e).
+Proof.
+  intros Hpre He. induction pre as [|[n x] pre IH]; simpl in *.
+  - destruct e as [n x]. simpl in *. subst n. rewrite bytes_eqb_refl. reflexivity.
+  - destruct (bytes_eqb p n); [discriminate|]. apply IH. exact Hpre.
+Qed.
+(* the answer for product p is computed from p's own entry alone: whatever other products (pre, post) the table
+   holds, and whatever their rules are *)
+Theorem products_isolated (pre post : list (product_entry C)) e p req :
+  fst e = p -> find_product p pre = None ->
+  lookup_table holds (pre ++ e :: post) p req = lookup_cluster holds (fst (snd e)) (snd (snd e)) req.
+Proof.
+  intros He Hpre. unfold lookup_table, product_entry in *. rewrite (find_product_app p pre e post Hpre He).
+  destruct (snd e) as [basic adv]. reflexivity.
+Qed.
+Corollary other_products_irrelevant (pre pre' post post' : list (product_entry C)) e p req :
+  fst e = p -> find_product p pre = None -> find_product p pre' = None ->
+  lookup_table holds (pre ++ e :: post) p req = lookup_table holds (pre' ++ e :: post') p req.
+Proof. intros He H1 H2. rewrite !products_isolated by assumption. reflexivity. Qed.
+(* a product that is in neither map has no rules at all *)
+Theorem unknown_product (tbl : list (product_entry C)) p req :
+  find_product p tbl = None -> lookup_table holds tbl p req = CErrNoProductRule.
+Proof. unfold lookup_table. intros ->. reflexivity. Qed.
+End Isolation.
+
 (* the executable property holds of the model on every well-formed input (uses the C11 refinement) *)
 From Bfe Require Import proofs.BasicRouteProofs run.RunC11 run.RunC12.
-Theorem prop_C12_of_model i : dec_C12 i <> None -> prop_C12 i (run_C12 i) = true.
+Lemma find_load prods : forall tbl p, load_table prods = Some tbl ->
+  find_product p tbl =
+  match find_product p prods with
+  | Some (ob, oa) => match load_opt ob with Some bt => Some (bt, oa) | None => None end
+  | None => None
+  end.
 Proof.
-  unfold prop_C12, run_C12. destruct (dec_C12 i) as [[[ob oa] req]|]; [|congruence]. intros _.
-  destruct ob as [rules|]; simpl load_opt.
-  - destruct (load_rules rules) as [t|] eqn:El; [|reflexivity].
-    refine (prop_shape _ _ _). rewrite lookup_refines_spec. simpl basic_result.
-    rewrite (get_refines_doc _ _ _ _ El). apply val_eqb_refl.
-  - refine (prop_shape _ _ _). rewrite lookup_refines_spec. apply val_eqb_refl.
+  induction prods as [|[n [ob oa]] prods IH]; intros tbl p; simpl.
+  - intros H. inversion H; subst. reflexivity.
+  - destruct (load_opt ob) as [bt|] eqn:El; [|discriminate].
+    destruct (load_table prods) as [t|] eqn:Et; [|discriminate]. intros H. inversion H; subst. simpl.
+    destruct (bytes_eqb p n); [rewrite El; reflexivity|]. apply IH. reflexivity.
+Qed.
+Lemma find_loaded prods : forall tbl p ob oa, load_table prods = Some tbl ->
+  find_product p prods = Some (ob, oa) -> load_opt ob <> None.
+Proof.
+  induction prods as [|[n [ob0 oa0]] prods IH]; intros tbl p ob oa; simpl; [discriminate|].
+  destruct (load_opt ob0) as [bt|] eqn:El; [|discriminate].
+  destruct (load_table prods) as [t|] eqn:Et; [|discriminate]. intros _.
+  destruct (bytes_eqb p n).
+  - intros H. inversion H; subst. rewrite El. discriminate.
+  - apply (IH t p ob oa eq_refl).
+Qed.
+Lemma request_refines_spec prods tbl q :
+  load_table prods = Some tbl -> lookup_table cond_holds tbl (fst q) (snd q) = spec_request prods q.
+Proof.
+  intros Hl. unfold lookup_table, spec_request. rewrite (find_load prods tbl (fst q) Hl).
+  destruct (find_product (fst q) prods) as [[ob oa]|] eqn:Ef; [|reflexivity].
+  pose proof (find_loaded prods tbl (fst q) ob oa Hl Ef) as Hne.
+  destruct (load_opt ob) as [bt|] eqn:El; [|congruence].
+  rewrite lookup_refines_spec. unfold load_opt in El. destruct ob as [rules|].
+  - destruct (load_rules rules) as [t|] eqn:Er; [|discriminate]. inversion El; subst. simpl basic_result.
+    rewrite (get_refines_doc _ _ _ _ Er). reflexivity.
+  - inversion El; subst. reflexivity.
+Qed.
+Lemma stage_refines_spec st : stage_out model_answer st = stage_out spec_answer st.
+Proof.
+  unfold stage_out. destruct (load_table (fst st)) as [tbl|] eqn:El; [|reflexivity].
+  f_equal. apply map_ext. intros q. unfold model_answer, spec_answer.
+  rewrite (request_refines_spec (fst st) tbl q El). reflexivity.
+Qed.
+Theorem prop_C12_of_model i : wf_C12 i = true -> kf_C12 i = 0 -> prop_C12 i (run_C12 i) = true.
+Proof.
+  unfold wf_C12, prop_C12, run_C12. destruct (dec_C12 i) as [stages|]; [|discriminate]. intros _ _.
+  rewrite (map_ext _ _ stage_refines_spec). apply val_eqb_refl.
 Qed.
 
 (* non-vacuity: product with basic table {www.a.com /a* -> B ; www.c.com * -> ADVANCED_MODE} and advanced rules
@@ -103,10 +170,20 @@ Definition ex_adv : option (list (cond * bytes)) :=
   Some [(CMethodIn [b "POST"], b "P"); (CPathPrefixIn [b "/x"], b "X"); (CDefault, b "D")].
 Lemma ex_lookups :
   ex_basic <> None /\
-  lookup_cluster cond_holds ex_basic ex_adv (mkReq (b "www.a.com:8080") (b "/a/1") (b "POST")) = COk (b "B") /\
-  lookup_cluster cond_holds ex_basic ex_adv (mkReq (b "www.c.com") (b "/x") (b "POST")) = COk (b "P") /\
-  lookup_cluster cond_holds ex_basic ex_adv (mkReq (b "www.c.com") (b "/x") (b "GET")) = COk (b "X") /\
-  lookup_cluster cond_holds ex_basic ex_adv (mkReq (b "www.a.com") (b "/b") (b "GET")) = COk (b "D") /\
-  lookup_cluster cond_holds ex_basic (Some [(CMethodIn [b "POST"], b "P")]) (mkReq (b "www.a.com") (b "/b") (b "GET")) = CErrNoMatchRule /\
-  lookup_cluster cond_holds ex_basic None (mkReq (b "www.c.com") (b "/") (b "GET")) = CErrNoProductRule.
+  lookup_cluster cond_holds ex_basic ex_adv (mkReq (b "www.a.com:8080") (b "/a/1") (b "POST") true) = COk (b "B") /\
+  lookup_cluster cond_holds ex_basic ex_adv (mkReq (b "www.c.com") (b "/x") (b "POST") true) = COk (b "P") /\
+  lookup_cluster cond_holds ex_basic ex_adv (mkReq (b "www.c.com") (b "/x") (b "GET") true) = COk (b "X") /\
+  lookup_cluster cond_holds ex_basic ex_adv (mkReq (b "www.a.com") (b "/b") (b "GET") true) = COk (b "D") /\
+  lookup_cluster cond_holds ex_basic (Some [(CMethodIn [b "POST"], b "P")]) (mkReq (b "www.a.com") (b "/b") (b "GET") true) = CErrNoMatchRule /\
+  lookup_cluster cond_holds ex_basic None (mkReq (b "www.c.com") (b "/") (b "GET") true) = CErrNoProductRule.
 Proof. vm_compute. repeat split; try reflexivity. discriminate. Qed.
+(* two products over the same hosts: "pa" has the basic rule, "pb" only advanced rules; the same request is a basic
+   hit under pa and falls to pb's own advanced rules under pb *)
+Definition ex_table : list (product_entry cond) :=
+  [ (b "pa", (ex_basic, None)); (b "pb", (None, ex_adv)) ].
+Lemma ex_isolation :
+  lookup_table cond_holds ex_table (b "pa") (mkReq (b "www.a.com") (b "/a/1") (b "GET") true) = COk (b "B") /\
+  lookup_table cond_holds ex_table (b "pb") (mkReq (b "www.a.com") (b "/a/1") (b "GET") true) = COk (b "D") /\
+  lookup_table cond_holds ex_table (b "pa") (mkReq (b "www.a.com") (b "/zzz") (b "GET") true) = CErrNoProductRule /\
+  lookup_table cond_holds ex_table (b "pc") (mkReq (b "www.a.com") (b "/a/1") (b "GET") true) = CErrNoProductRule.
+Proof. vm_compute. repeat split; reflexivity. Qed.
